@@ -251,6 +251,17 @@ func toBitsList(bitDefintions []*meta.Bit, v interface{}) (val.BitsList, error) 
 		return toBitsListHandler(bitDefintions, x)
 	case []float64: // default type for decimals from JSON parser
 		return toBitsListHandler(bitDefintions, x)
+	case []interface{}: // what the JSON parser gives for an array
+		result := make([]val.Bits, len(x))
+		for i, item := range x {
+			var err error
+			if result[i], err = toBits(bitDefintions, item); err != nil {
+				return nil, err
+			}
+		}
+		return result, nil
+	case val.BitsList:
+		return x, nil
 	}
 	return nil, fmt.Errorf("could not coerce %v into BitList", v)
 }
